@@ -31,6 +31,13 @@ struct C19 : Prop {
 		api::Ids ids = api::collect(w);
 		bool impeded = r.chance(300);
 		plan.set("impeded", impeded);
+		// second kind of impediment: the reporting SecAck board does not answer requests, its response budget is used up and a request is held
+		// back; mirrors queue behind it and must be released when the unanswered requests expire (2 s) and the board sends anything at all
+		bool budget_impeded = !impeded && r.chance(200);
+		const cfg::Board *bb = nullptr;
+		if (budget_impeded) { std::vector<const cfg::Board *> sa; for (auto &b : w.boards) if (b.present && b.secack()) sa.push_back(&b); if (sa.empty()) budget_impeded = false; else bb = sa[r.below(sa.size())]; }
+		if (budget_impeded) { J bus = plan["bus"]; J da = J::arr(); da.push((int) MSG_SYS_SW_VERSION); bus.set("drop_answers", da); plan.set("bus", bus); }
+		plan.set("budget_impeded", budget_impeded);
 		J se = cfg::normal_session(0, 0);
 		J phs = J::arr();
 		int nph = (int) r.range(1, thorough ? 3 : 2), maxt = 1;
@@ -45,10 +52,16 @@ struct C19 : Prop {
 				J e = J::obj(); e.set("at_us", 0); e.set("node", pc::jaddr(sb->addr)); e.set("type", (int) MSG_STALL); e.set("data", pc::jarr({1})); ev.push(e);
 				t = 2000;
 			}
+			if (budget_impeded && p == 0) {
+				J pre = J::arr();
+				for (int q = 0, nq = (int) r.range(7, 9); q < nq; q++) pre.push(pc::ll_op(r, *cat::find("sys_get_sw_version"), bb->addr));
+				{ J f = J::obj(); f.set("op", "flush"); pre.push(f); }
+				ph.set("pre", pre);
+			}
 			int n = (int) r.range(2, thorough ? 30 : 16);
 			for (int i = 0; i < n; i++) {
 				t += (int) r.range(0, 6000);
-				const cfg::Board *b = bs[r.below(bs.size())];
+				const cfg::Board *b = (budget_impeded && r.chance(600)) ? bb : bs[r.below(bs.size())];
 				J e = J::obj(); e.set("at_us", t); e.set("node", pc::jaddr(b->addr));
 				uint64_t x = r.below(100);
 				int det = (!b->segs.empty() && r.chance(700)) ? b->segs[r.below(b->segs.size())].addr : (int) r.byte();
@@ -120,6 +133,15 @@ struct C19 : Prop {
 		}
 		return false;
 	}
+	// a request of the application to this node that has not reached the wire yet (held back by the response budget): mirrors queue behind it
+	bool held_request_for(Engine &e, uint32_t node) {
+		std::map<std::string, int> submitted, wired;
+		for (auto &st : e.starts) { if (st.op->gets("op") != "ll") continue; ref::Msg m = pc::ll_expected(*st.op); if (m.addr_key() == node) submitted[pc::msg_key(m)]++; }
+		if (submitted.empty()) return false;
+		for (auto &w : e.bus.wire) if (w.msg.addr_key() == node) wired[pc::msg_key(w.msg)]++;
+		for (auto &kv : submitted) if (wired[kv.first] < kv.second) return true;
+		return false;
+	}
 	static bool is_mirror(uint8_t t) { return t == MSG_BM_MIRROR_OCC || t == MSG_BM_MIRROR_FREE || t == MSG_BM_MIRROR_MULTIPLE || t == MSG_BM_MIRROR_POSITION; }
 
 	void attach(Engine &e) override {
@@ -154,7 +176,7 @@ struct C19 : Prop {
 				Expect &x = exp[i];
 				if (x.frame != f.id || x.judged) continue;
 				x.judged = true; x.report_processed_step = f.processed_step;
-				x.immediate = !under_stall(x.node);
+				x.immediate = !under_stall(x.node) && !held_request_for(e, x.node);
 				// an earlier mirror of this node still waiting -> this one queues behind it
 				for (size_t j = 0; j < i; j++) if (exp[j].node == x.node && exp[j].wire_idx < 0) x.immediate = false;
 				if (x.immediate) {
